@@ -138,6 +138,8 @@ package jen
 // ---- file assembly ----
 
 //@ func Comment [C01,C02,C03,C04,C07,C08,C09,C10,C14,C15,C19]
+//@   requires unfold(treeOK) tree: treeOK()
+//@   ensures [C02] unfold(treeOK) tree: treeOK()
 //@   ensures [C15,C14] one: fresh(result) && len(*result) == 1 && (*result)[0] == C_comment(mk_comment(str)) && fresh((*result).arr)
 
 //@ func (*File).renderImports [C01,C02,C03,C04,C07,C08,C09,C10,C15,C19]
@@ -149,6 +151,7 @@ package jen
 //@   ensures [C03,C04,C07,C19] unfold(ImportBlock MainBlockText:2) block: err == nil ==> written[source] == old(written[source]) ++ ImportBlock(mapof(f.imports), cells(f.cgoPreamble), len(f.cgoPreamble))
 //@   ensures [C04,C08] same: err == nil ==> mapof(f.imports) == old(mapof(f.imports))
 //@   ensures [C08] stable: stable(old(mapof(f.imports)), mapof(f.imports)) && regpre(f) && Fof(f) == old(Fof(f))
+//@   ensures [C02] tree: treeOK()
 //@   loop 1 invariant dom: forall q string :: { mapof(filtered).dom[q] } has(filtered, q) == ($m.dom[q] && $idx[q] < $i && !(q == "C" && separateCgo))
 //@   loop 1 invariant val: forall q string :: { mapof(filtered).val[q] } filtered[q] == (has(filtered, q) ? $m.val[q] : mk_importdef("", false))
 //@   loop 1 invariant card: len(filtered) == $i - (($m.dom["C"] && $idx["C"] < $i && separateCgo) ? 1 : 0)
@@ -173,6 +176,7 @@ package jen
 //@   loop 4 invariant entry marker: isSortedEnum(cells(paths), mapof(filtered))
 //@   loop 4 invariant local sorted: forall j int :: { paths[j] } (0 <= j && j < len(paths)) ==> paths[j] == sortedKeysOf(mapof(filtered))[j]
 //@   loop 4 invariant unfold(ImportLines) lines: written[source] == old(written[source]) ++ "import (\n" ++ ImportLines(sortedKeysOf(mapof(filtered)), mapof(filtered), $i)
+//@   loop 5 invariant [C02] tree: treeOK()
 //@   loop 5 invariant imps: mapof(f.imports) == old(mapof(f.imports)) && Fof(f) == old(Fof(f)) && $i <= len(f.cgoPreamble) && cells(f.cgoPreamble) == old(cells(f.cgoPreamble))
 //@   loop 5 invariant unfold(MainBlockText) main: atLoopEntry(written[source]) == old(written[source]) ++ MainBlockText(mainBlock(old(mapof(f.imports)), len(f.cgoPreamble) > 0))
 //@   loop 5 invariant pre: written[source] == atLoopEntry(written[source]) ++ CommentLines(cells(f.cgoPreamble), $i)
@@ -190,16 +194,19 @@ package jen
 //@   ensures [C10] errprop: (failed[w] && !old(failed[w])) ==> err != nil
 //@   ensures [C04,C08] imports: err == nil ==> mapof(f.imports) == BodySt(f, old(mapof(f.imports))).imp
 //@   ensures [C08] unfold(stable wfImp) stable: stable(old(mapof(f.imports)), mapof(f.imports)) && regpre(f) && Fof(f) == old(Fof(f))
+//@   loop 1 invariant [C02] tree: treeOK()
 //@   loop 1 invariant unfold(CommentLines) hdr: written[source] == CommentLines(cells(f.headers), $i) && $i <= len(f.headers)
 //@   loop 1 invariant bufs: source > old(alloc) && body > old(alloc) && source != body
 //@   loop 1 invariant isbuf: isbuf[source] && isbuf[body]
 //@   loop 1 invariant wsame: written[w] == old(written[w]) && nwrites[w] == old(nwrites[w]) && failed[w] == old(failed[w])
 //@   loop 1 invariant imp: mapof(f.imports) == atLoopEntry(mapof(f.imports)) && regpre(f) && Fof(f) == old(Fof(f)) && written[body] == atLoopEntry(written[body]) && cells(f.headers) == old(cells(f.headers)) && cells(f.comments) == old(cells(f.comments)) && cells(f.cgoPreamble) == old(cells(f.cgoPreamble))
+//@   loop 2 invariant [C02] tree: treeOK()
 //@   loop 2 invariant unfold(CommentLines) cmt: written[source] == atLoopEntry(written[source]) ++ CommentLines(cells(f.comments), $i) && $i <= len(f.comments)
 //@   loop 2 invariant bufs: source > old(alloc) && body > old(alloc) && source != body
 //@   loop 2 invariant isbuf: isbuf[source] && isbuf[body]
 //@   loop 2 invariant wsame: written[w] == old(written[w]) && nwrites[w] == old(nwrites[w]) && failed[w] == old(failed[w])
 //@   loop 2 invariant imp: mapof(f.imports) == atLoopEntry(mapof(f.imports)) && regpre(f) && Fof(f) == old(Fof(f)) && written[body] == atLoopEntry(written[body]) && cells(f.comments) == old(cells(f.comments)) && cells(f.cgoPreamble) == old(cells(f.cgoPreamble))
+//@   ensures [C02] tree: treeOK()
 
 //@ func (*File).Save [C02,C09,C10]
 //@   requires file: regpre(f) && f.Group != nil
@@ -209,10 +216,12 @@ package jen
 //@   ensures [C10] untouched: fslog == old(fslog) ==> result != nil
 //@   ensures [C10] content: fslog == old(fslog) + 1 ==> (fsname == filename && fsdata == FileOut(f, old(mapof(f.imports))))
 //@   ensures [C10] success: result == nil ==> fslog == old(fslog) + 1
+//@   ensures [C02] tree: treeOK()
 
 // ---- fragments ----
 
 //@ func NewFile [C02,C09,C10,C14]
+//@   requires unfold(treeOK) tree: treeOK()
 //@   ensures [C09] fresh: fresh(result) && fresh(result.Group) && fresh(result.imports) && fresh(result.hints) && result.imports != result.hints
 //@   ensures empty: len(result.imports) == 0 && len(result.hints) == 0 && (forall p string :: !has(result.imports, p) && !has(result.hints, p) && result.imports[p] == mk_importdef("", false) && result.hints[p] == mk_importdef("", false))
 //@   ensures fields: result.name == packageName && result.path == "" && result.PackagePrefix == "" && result.CanonicalPath == "" && !result.NoFormat
@@ -220,16 +229,20 @@ package jen
 //@   ensures group: result.Group.multi && result.Group.open == "" && result.Group.close == "" && result.Group.separator == "" && result.Group.name == "" && len(result.Group.items) == 0
 //@   ensures file: regpre(result)
 //@   ensures [C14] emptymaps: mapof(result.imports) == emptyImp(result) && mapof(result.hints) == emptyImp(result)
+//@   ensures [C02] unfold(treeOK) tree: treeOK()
 
 //@ func NewFilePathName [C02,C06,C09,C14]
+//@   requires unfold(treeOK) tree: treeOK()
 //@   ensures [C09] fresh: fresh(result) && fresh(result.Group) && fresh(result.imports) && fresh(result.hints) && result.imports != result.hints
 //@   ensures empty: len(result.imports) == 0 && len(result.hints) == 0 && (forall p string :: !has(result.imports, p) && !has(result.hints, p) && result.imports[p] == mk_importdef("", false) && result.hints[p] == mk_importdef("", false))
 //@   ensures [C06] fields: result.name == packageName && result.path == packagePath && result.PackagePrefix == "" && result.CanonicalPath == "" && !result.NoFormat
 //@       && len(result.headers) == 0 && len(result.comments) == 0 && len(result.cgoPreamble) == 0
 //@   ensures group: result.Group.multi && result.Group.open == "" && result.Group.close == "" && result.Group.separator == "" && result.Group.name == "" && len(result.Group.items) == 0
 //@   ensures file: regpre(result)
+//@   ensures [C02] unfold(treeOK) tree: treeOK()
 
 //@ func NewFilePath [C02,C05,C06,C09,C14]
+//@   requires unfold(treeOK) tree: treeOK()
 //@   ensures [C09] fresh: fresh(result) && fresh(result.Group) && fresh(result.imports) && fresh(result.hints) && result.imports != result.hints
 //@   ensures empty: len(result.imports) == 0 && len(result.hints) == 0 && (forall p string :: !has(result.imports, p) && !has(result.hints, p) && result.imports[p] == mk_importdef("", false) && result.hints[p] == mk_importdef("", false))
 //@   ensures [C06] fields: result.path == packagePath && result.PackagePrefix == "" && result.CanonicalPath == "" && !result.NoFormat
@@ -237,6 +250,7 @@ package jen
 //@   ensures [C05] name: identLower(result.name)
 //@   ensures group: result.Group.multi && result.Group.open == "" && result.Group.close == "" && result.Group.separator == "" && result.Group.name == "" && len(result.Group.items) == 0
 //@   ensures file: regpre(result)
+//@   ensures [C02] unfold(treeOK) tree: treeOK()
 
 //@ func (*File).HeaderComment [C09,C15]
 //@   requires f != nil
@@ -293,6 +307,7 @@ package jen
 //@   ensures [C10] once: nwrites[writer] <= old(nwrites[writer]) + 1 && (result == nil ==> nwrites[writer] == old(nwrites[writer]) + 1)
 //@   ensures [C10] atomic: nwrites[writer] == old(nwrites[writer]) ==> (written[writer] == old(written[writer]) && result != nil)
 //@   ensures [C10] errprop: (failed[writer] && !old(failed[writer])) ==> result != nil
+//@   ensures [C02] tree: treeOK()
 
 //@ func (*Group).Render [C02,C09,C10,C14]
 //@   unfold none
@@ -303,6 +318,7 @@ package jen
 //@   ensures [C10] once: nwrites[writer] <= old(nwrites[writer]) + 1 && (result == nil ==> nwrites[writer] == old(nwrites[writer]) + 1)
 //@   ensures [C10] atomic: nwrites[writer] == old(nwrites[writer]) ==> (written[writer] == old(written[writer]) && result != nil)
 //@   ensures [C10] errprop: (failed[writer] && !old(failed[writer])) ==> result != nil
+//@   ensures [C02] tree: treeOK()
 
 //@ func (*File).GoString [C02,C09,C14]
 //@   unfold none
@@ -311,6 +327,7 @@ package jen
 //@   modifies mapof(f.imports)
 //@   ensures [C14] same: result == FileOut(f, old(mapof(f.imports)))
 //@   panics [C14] renderfailed: err != nil
+//@   ensures [C02] tree: treeOK()
 
 //@ func (*Statement).GoString [C02,C09,C14]
 //@   unfold none
@@ -318,6 +335,7 @@ package jen
 //@   free requires tree: treeOK()
 //@   ensures [C14] same: result == fmtOf(LoneSt(C_pStatement(s), nil).out)
 //@   panics [C14] renderfailed: err != nil
+//@   ensures [C02] tree: treeOK()
 
 //@ func (*Group).GoString [C02,C09,C14]
 //@   unfold none
@@ -325,6 +343,7 @@ package jen
 //@   free requires tree: treeOK()
 //@   ensures [C14] same: result == fmtOf(LoneSt(C_pGroup(g), nil).out)
 //@   panics [C14] renderfailed: err != nil
+//@   ensures [C02] tree: treeOK()
 
 // ---- hints and anonymous imports ----
 
@@ -496,30 +515,40 @@ package jen
 //@ construct LitRune kind=tokenrune typ=literal_rune
 //@ construct LitByte kind=tokenbyte typ=literal_byte
 
-//@ func newStatement [C14,C20,C09]
+//@ func newStatement [C02,C14,C20,C09]
+//@   requires unfold(treeOK) tree: treeOK()
 //@   ensures [C20,C14] empty: fresh(result) && len(*result) == 0 && cap(*result) == 0
+//@   ensures [C02] unfold(treeOK) tree: treeOK()
 
-//@ func (*Statement).Clone [C20,C14,C09]
+//@ func (*Statement).Clone [C02,C20,C14,C09]
+//@   requires unfold(treeOK) tree: treeOK()
 //@   ensures [C20] wrapper: fresh(result) && len(*result) == 1 && (*result)[0] == C_pStatement(s) && fresh((*result).arr)
 //@   ensures [C20] untouched: *s == old(*s)
+//@   ensures [C02] unfold(treeOK) tree: treeOK()
 
-//@ func (*Statement).Add [C14,C20,C13,C01,C09]
+//@ func (*Statement).Add [C02,C14,C20,C13,C01,C09]
+//@   requires unfold(treeOK) tree: treeOK()
+//@   requires args: forall j int :: { code[j] } (0 <= j && j < len(code)) ==> wfC(code[j])
 //@   requires s != nil
 //@   modifies *s, tail(*s)
 //@   ensures [C14,C20] self: result == s
 //@   ensures [C14,C20,C01] appended: len(*s) == old(len(*s)) + len(code) && (forall j int :: { (*s)[j] } (0 <= j && j < old(len(*s))) ==> (*s)[j] == old((*s)[j]))
 //@       && (forall j int :: { (*s)[old(len(*s)) + j] } (0 <= j && j < len(code)) ==> (*s)[old(len(*s)) + j] == old(code[j]))
 //@   ensures [C20] backing: len(*s) <= cap(*s) && (old(len(*s)) + len(code) <= old(cap(*s)) ? (*s).arr == old((*s).arr) && cap(*s) == old(cap(*s)) : fresh((*s).arr))
+//@   ensures [C02] unfold(treeOK) tree: treeOK()
 
-//@ func (*Statement).Dot [C14,C20,C01,C09]
+//@ func (*Statement).Dot [C02,C14,C20,C01,C09]
+//@   requires unfold(treeOK) tree: treeOK()
 //@   requires s != nil
 //@   modifies *s, tail(*s)
 //@   ensures [C14,C20] self: result == s
 //@   ensures [C14,C20,C01] appended: len(*s) == old(len(*s)) + 2 && (forall j int :: { (*s)[j] } (0 <= j && j < old(len(*s))) ==> (*s)[j] == old((*s)[j]))
 //@   ensures [C14,C01] items: (*s)[old(len(*s))] == C_token(mk_token("delimiter", A_string("."))) && (*s)[old(len(*s)) + 1] == C_token(mk_token("identifier", A_string(name)))
 //@   ensures [C20] backing: len(*s) <= cap(*s) && (old(len(*s)) + 2 <= old(cap(*s)) ? (*s).arr == old((*s).arr) && cap(*s) == old(cap(*s)) : fresh((*s).arr))
+//@   ensures [C02] unfold(treeOK) tree: treeOK()
 
-//@ func (*Statement).Qual [C14,C20,C01,C03,C09]
+//@ func (*Statement).Qual [C02,C14,C20,C01,C03,C09]
+//@   requires unfold(treeOK) tree: treeOK()
 //@   requires s != nil
 //@   modifies *s, tail(*s)
 //@   ensures [C14,C20] self: result == s
@@ -530,8 +559,11 @@ package jen
 //@       && C_pGroup_v((*s)[old(len(*s))]).items[0] == C_token(mk_token("package", A_string(path)))
 //@       && C_pGroup_v((*s)[old(len(*s))]).items[1] == C_token(mk_token("identifier", A_string(name)))
 //@   ensures [C20] backing: len(*s) <= cap(*s) && (old(len(*s)) + 1 <= old(cap(*s)) ? (*s).arr == old((*s).arr) && cap(*s) == old(cap(*s)) : fresh((*s).arr))
+//@   ensures [C02] unfold(treeOK) tree: treeOK()
 
-//@ func (*Statement).Custom [C14,C20,C01,C09]
+//@ func (*Statement).Custom [C02,C14,C20,C01,C09]
+//@   requires unfold(treeOK) tree: treeOK()
+//@   requires args: forall j int :: { statements[j] } (0 <= j && j < len(statements)) ==> wfC(statements[j])
 //@   requires s != nil
 //@   modifies *s, tail(*s)
 //@   ensures [C14,C20] self: result == s
@@ -540,59 +572,75 @@ package jen
 //@       && C_pGroup_v((*s)[old(len(*s))]).name == "custom" && C_pGroup_v((*s)[old(len(*s))]).open == options.Open && C_pGroup_v((*s)[old(len(*s))]).close == options.Close
 //@       && C_pGroup_v((*s)[old(len(*s))]).separator == options.Separator && C_pGroup_v((*s)[old(len(*s))]).multi == options.Multi && C_pGroup_v((*s)[old(len(*s))]).items == statements
 //@   ensures [C20] backing: len(*s) <= cap(*s) && (old(len(*s)) + 1 <= old(cap(*s)) ? (*s).arr == old((*s).arr) && cap(*s) == old(cap(*s)) : fresh((*s).arr))
+//@   ensures [C02] unfold(treeOK) tree: treeOK()
 
-//@ func (*Statement).Tag [C14,C17,C20,C09]
+//@ func (*Statement).Tag [C02,C14,C17,C20,C09]
+//@   requires unfold(treeOK) tree: treeOK()
 //@   requires s != nil
 //@   modifies *s, tail(*s)
 //@   ensures [C14,C20] self: result == s
 //@   ensures [C14,C20] appended: len(*s) == old(len(*s)) + 1 && (forall j int :: { (*s)[j] } (0 <= j && j < old(len(*s))) ==> (*s)[j] == old((*s)[j]))
 //@   ensures [C14,C17] item: (*s)[old(len(*s))] == C_tag(mk_tag(items))
 //@   ensures [C20] backing: len(*s) <= cap(*s) && (old(len(*s)) + 1 <= old(cap(*s)) ? (*s).arr == old((*s).arr) && cap(*s) == old(cap(*s)) : fresh((*s).arr))
+//@   ensures [C02] unfold(treeOK) tree: treeOK()
 
-//@ func (*Statement).Comment [C14,C15,C20,C09]
+//@ func (*Statement).Comment [C02,C14,C15,C20,C09]
+//@   requires unfold(treeOK) tree: treeOK()
 //@   requires s != nil
 //@   modifies *s, tail(*s)
 //@   ensures [C14,C20] self: result == s
 //@   ensures [C14,C20] appended: len(*s) == old(len(*s)) + 1 && (forall j int :: { (*s)[j] } (0 <= j && j < old(len(*s))) ==> (*s)[j] == old((*s)[j]))
 //@   ensures [C14,C15] item: (*s)[old(len(*s))] == C_comment(mk_comment(str))
 //@   ensures [C20] backing: len(*s) <= cap(*s) && (old(len(*s)) + 1 <= old(cap(*s)) ? (*s).arr == old((*s).arr) && cap(*s) == old(cap(*s)) : fresh((*s).arr))
+//@   ensures [C02] unfold(treeOK) tree: treeOK()
 
-//@ func (*Statement).Commentf [C14,C15,C20,C09]
+//@ func (*Statement).Commentf [C02,C14,C15,C20,C09]
+//@   requires unfold(treeOK) tree: treeOK()
 //@   requires s != nil
 //@   modifies *s, tail(*s)
 //@   ensures [C14,C20] self: result == s
 //@   ensures [C14,C20] appended: len(*s) == old(len(*s)) + 1 && (forall j int :: { (*s)[j] } (0 <= j && j < old(len(*s))) ==> (*s)[j] == old((*s)[j]))
 //@   ensures [C14,C15] item: is_C_comment((*s)[old(len(*s))])
 //@   ensures [C20] backing: len(*s) <= cap(*s) && (old(len(*s)) + 1 <= old(cap(*s)) ? (*s).arr == old((*s).arr) && cap(*s) == old(cap(*s)) : fresh((*s).arr))
+//@   ensures [C02] unfold(treeOK) tree: treeOK()
 
-//@ func (*Statement).Do [C14,C09]
+//@ func (*Statement).Do [C02,C14,C09]
+//@   requires unfold(treeOK) tree: treeOK()
 //@   requires s != nil
 //@   modifies calls[f], apiEffects
 //@   ensures [C14] self: result == s
 //@   ensures [C14] once: calls[f] == old(calls[f]) + 1
+//@   ensures [C02] unfold(treeOK) tree: treeOK()
 
-//@ func (*Statement).LitFunc [C14,C11,C09]
+//@ func (*Statement).LitFunc [C02,C14,C11,C09]
+//@   requires unfold(treeOK) tree: treeOK()
 //@   requires s != nil
 //@   modifies calls[f], apiEffects
 //@   ensures [C14] self: result == s
 //@   ensures [C14,C11] once: calls[f] == old(calls[f]) + 1
 //@   ensures [C14,C11] item: len(*s) >= 1 && is_C_token((*s)[len(*s) - 1]) && C_token_v((*s)[len(*s) - 1]).typ == "literal"
+//@   ensures [C02] unfold(treeOK) tree: treeOK()
 
-//@ func (*Statement).LitRuneFunc [C14,C12,C09]
+//@ func (*Statement).LitRuneFunc [C02,C14,C12,C09]
+//@   requires unfold(treeOK) tree: treeOK()
 //@   requires s != nil
 //@   modifies calls[f], apiEffects
 //@   ensures [C14] self: result == s
 //@   ensures [C14,C12] once: calls[f] == old(calls[f]) + 1
 //@   ensures [C14,C12] item: len(*s) >= 1 && is_C_token((*s)[len(*s) - 1]) && C_token_v((*s)[len(*s) - 1]).typ == "literal_rune" && is_A_int32(C_token_v((*s)[len(*s) - 1]).content)
+//@   ensures [C02] unfold(treeOK) tree: treeOK()
 
-//@ func (*Statement).LitByteFunc [C14,C12,C09]
+//@ func (*Statement).LitByteFunc [C02,C14,C12,C09]
+//@   requires unfold(treeOK) tree: treeOK()
 //@   requires s != nil
 //@   modifies calls[f], apiEffects
 //@   ensures [C14] self: result == s
 //@   ensures [C14,C12] once: calls[f] == old(calls[f]) + 1
 //@   ensures [C14,C12] item: len(*s) >= 1 && is_C_token((*s)[len(*s) - 1]) && C_token_v((*s)[len(*s) - 1]).typ == "literal_byte" && is_A_uint8(C_token_v((*s)[len(*s) - 1]).content)
+//@   ensures [C02] unfold(treeOK) tree: treeOK()
 
-//@ func (*Statement).CustomFunc [C14,C01,C09]
+//@ func (*Statement).CustomFunc [C02,C14,C01,C09]
+//@   requires unfold(treeOK) tree: treeOK()
 //@   requires s != nil
 //@   modifies calls[f], apiEffects
 //@   ensures [C14] self: result == s
@@ -600,8 +648,11 @@ package jen
 //@   ensures [C14,C01] item: len(*s) >= 1 && is_C_pGroup((*s)[len(*s) - 1]) && fresh(C_pGroup_v((*s)[len(*s) - 1]))
 //@       && C_pGroup_v((*s)[len(*s) - 1]).name == "custom" && C_pGroup_v((*s)[len(*s) - 1]).open == options.Open && C_pGroup_v((*s)[len(*s) - 1]).close == options.Close
 //@       && C_pGroup_v((*s)[len(*s) - 1]).separator == options.Separator && C_pGroup_v((*s)[len(*s) - 1]).multi == options.Multi
+//@   ensures [C02] unfold(treeOK) tree: treeOK()
 
-//@ func DictFunc [C14,C16,C09]
+//@ func DictFunc [C02,C14,C16,C09]
+//@   requires unfold(treeOK) tree: treeOK()
 //@   modifies calls[f], apiEffects
 //@   ensures [C14] once: calls[f] == old(calls[f]) + 1
 //@   ensures [C14] fresh: fresh(result)
+//@   ensures [C02] unfold(treeOK) tree: treeOK()
